@@ -101,3 +101,47 @@ package xsort
 //@   ensures forall t int {inv[t]} {old(x[t])} :: 0 <= t && t < len(x) ==> 0 <= inv[t] && inv[t] < len(x) && x[inv[t]] == old(x[t])
 //@   ensures C190: forall i int, j int {x[i], x[j]} :: 0 <= i && i <= j && j < len(x) ==> !less(x[j], x[i])
 //@   ensures forall k int {row(x)[k]} :: k < off(x) || k >= off(x) + len(x) ==> row(x)[k] == old(row(x)[k])
+
+// ---- Merge: a heap with one entry per input that is not exhausted - the item last pulled from it ----
+// Proved: no panic (the source index of every heap entry is in range), every entry carries the item
+// last pulled from its source, the sources of the entries are pairwise distinct, Next returns the value
+// of the heap's least entry (so, by the heap contract, nothing left in the heap is less than it), and
+// reports the end exactly when the heap is empty. NOT proved: that the merged output is a permutation of
+// the inputs, and its sortedness for sorted inputs (the bounded stand-in for MergeSlices covers both on small inputs).
+//@ pred mgIns(in) = (forall k int {in[k]} :: 0 <= k && k < len(in) ==> in[k] != nil && itInv(in[k]))
+//@   && (forall k1 int, k2 int {in[k1], in[k2]} :: 0 <= k1 && k1 < k2 && k2 < len(in) ==> in[k1] != in[k2])
+//@ pred mgEntry(iter, e) = 0 <= e.source && e.source < len(iter.in) && iter.in[e.source].pos >= 1 && e.value == iter.in[e.source].seq[iter.in[e.source].pos - 1]
+//@ pred mgRep(iter) = wfH(iter.h) && !iter.h.indexChanged.tracks && mgIns(iter.in)
+//@   && (forall k int {iter.h.a[k]} :: 0 <= k && k < len(iter.h.a) ==> mgEntry(iter, iter.h.a[k]))
+//@   && (forall k1 int, k2 int {iter.h.a[k1], iter.h.a[k2]} :: 0 <= k1 && k1 < k2 && k2 < len(iter.h.a) ==> iter.h.a[k1].source != iter.h.a[k2].source)
+
+//@ func mergeIterator.Next
+//@   props C19
+//@   splitfirst
+//@   requires mgRep(iter)
+//@   modifies iter.h.a, iter.h.gen, elems(iter.h.a), all(iter.in[0].pos), all(iter.in[0].pulls), iter.h.indexChanged.N, iter.h.indexChanged.f, iter.h.indexChanged.g, iter.h.indexChanged.base, iter.h.indexChanged.bn, iter.h.indexChanged.gone, iter.h.indexChanged.lo
+//@   after call Pop[0]: assert forall j int {iter.h.indexChanged.base[j]} :: 0 <= j && j < old(len(iter.h.a)) ==> mgEntry(iter, iter.h.indexChanged.base[j])
+//@   after call Pop[0]: assert forall j1 int, j2 int {iter.h.indexChanged.base[j1], iter.h.indexChanged.base[j2]} :: 0 <= j1 && j1 < j2 && j2 < old(len(iter.h.a)) ==> iter.h.indexChanged.base[j1].source != iter.h.indexChanged.base[j2].source
+//@   after call Pop[0]: assert forall k int {iter.h.a[k]} :: 0 <= k && k < len(iter.h.a) ==> mgEntry(iter, iter.h.a[k]) && iter.h.a[k].source != callresult.source
+//@   after call Next[0]: assert forall k int {iter.h.a[k]} :: 0 <= k && k < len(iter.h.a) ==> mgEntry(iter, iter.h.a[k]) && iter.h.a[k].source != item.source
+//@   after call Push[0]: assert forall j int {iter.h.indexChanged.base[j]} :: 0 <= j && j < old(len(iter.h.a)) ==> mgEntry(iter, iter.h.indexChanged.base[j])
+//@   after call Push[0]: assert forall j1 int, j2 int {iter.h.indexChanged.base[j1], iter.h.indexChanged.base[j2]} :: 0 <= j1 && j1 < j2 && j2 < old(len(iter.h.a)) ==> iter.h.indexChanged.base[j1].source != iter.h.indexChanged.base[j2].source
+//@   after call Push[0]: assert forall k int {iter.h.a[k]} :: 0 <= k && k < len(iter.h.a) ==> mgEntry(iter, iter.h.a[k])
+//@   after call Push[0]: assert forall k1 int, k2 int {iter.h.a[k1], iter.h.a[k2]} :: 0 <= k1 && k1 < k2 && k2 < len(iter.h.a) ==> iter.h.a[k1].source != iter.h.a[k2].source
+//@   ensures mgRep(iter)
+//@   ensures result1 <==> old(len(iter.h.a)) > 0
+//@   ensures result1 ==> result0 == old(iter.h.a[0].value)
+//@   ensures !result1 ==> result0 == zero(result0)
+
+//@ func Merge
+//@   props C19
+//@   requires less != nil && swoT(less) && mgIns(in)
+//@   modifies all(in[0].pos), all(in[0].pulls)
+//@   before call New[0]: ghost callarg1.want := false
+//@   loop 0: invariant mgIns(in) && fresh(initial) && off(initial) == 0 && len(initial) <= idx0 && cap(initial) == len(in)
+//@   loop 0: invariant forall k int {initial[k]} :: 0 <= k && k < len(initial) ==> 0 <= initial[k].source && initial[k].source < idx0 && in[initial[k].source].pos >= 1 && initial[k].value == in[initial[k].source].seq[in[initial[k].source].pos - 1]
+//@   loop 0: invariant forall k1 int, k2 int {initial[k1], initial[k2]} :: 0 <= k1 && k1 < k2 && k2 < len(initial) ==> initial[k1].source < initial[k2].source
+//@   after call New[0]: assert forall j int {callarg1.base[j]} :: 0 <= j && j < len(initial) ==> 0 <= callarg1.base[j].source && callarg1.base[j].source < len(in) && in[callarg1.base[j].source].pos >= 1 && callarg1.base[j].value == in[callarg1.base[j].source].seq[in[callarg1.base[j].source].pos - 1]
+//@   after call New[0]: assert forall j1 int, j2 int {callarg1.base[j1], callarg1.base[j2]} :: 0 <= j1 && j1 < j2 && j2 < len(initial) ==> callarg1.base[j1].source != callarg1.base[j2].source
+//@   ensures result != nil && fresh(result) && dyntype(result) == typeof("xsort.mergeIterator") && result.(*mergeIterator[T]).in == in && mgRep(result.(*mergeIterator[T]))
+//@   ensures forall a valueAndSource[T], b valueAndSource[T] {result.(*mergeIterator[T]).h.lessFn(a, b)} :: result.(*mergeIterator[T]).h.lessFn(a, b) == less(a.value, b.value)
